@@ -76,9 +76,10 @@ var propRules = map[string]*PropSpec{
 		Technique:  techOwn,
 	},
 	"C04": {
-		Rules:       []string{"F7", "F1", "A1.api32", "F12", "U4", "R2", "LP1", "U5", "CUR1", "CUR2", "CUR3", "CUR4"},
+		Rules:       []string{"F7", "F1", "A1.api32", "F12", "U4", "R2", "LP1", "U5", "CUR1", "CUR2", "CUR3", "CUR4", "CUR5"},
 		Explanation: explBase + " C04: the early-termination clause and the purity of iteration are decided; kind dispatch in iterator init / Iterate / Ranges is exhaustive.",
 		Decided: []string{
+			"the batch iterators ask the inner iterator for more only behind a test that the caller's buffer has room, so that a zero answer can only mean an exhausted chunk",
 			"an iterator glues the key of the current chunk/bucket to what the inner iterator yields only when no reload of the cursor lies between the two reads",
 			"every move of the inner iterator of the eager iterators is followed, before returning, by an exhaustion test that may reload the cursor",
 			"AdvanceIfNeeded hands the low half of its argument to the chunk-level iterator (or stores it as gap position) only under an equality test of the cursor key against the argument's high half",
@@ -243,9 +244,10 @@ var propRules = map[string]*PropSpec{
 		Technique:  techMix,
 	},
 	"C17": {
-		Rules:       []string{"A2.64", "A3.64", "F3.64", "F5", "F9", "A1.api64", "A5", "F12", "P6", "P2", "U1", "F10", "EQ1", "R2", "IDX1", "A2.stale", "LEN1", "F5.neg", "R3", "U5", "CUR1", "CUR2", "CUR3", "CUR4", "GAL1", "CACHE1"},
+		Rules:       []string{"A2.64", "A3.64", "F3.64", "F5", "F9", "A1.api64", "A5", "F12", "P6", "P2", "U1", "F10", "EQ1", "R2", "IDX1", "A2.stale", "LEN1", "F5.neg", "R3", "U5", "CUR1", "CUR2", "CUR3", "CUR4", "GAL1", "CACHE1", "CUR5"},
 		Explanation: explBase + " C17: the 64-bit bitmap's bucket table obeys the same ownership discipline (bucket = container), drops emptied buckets, inserts at the right index and its aggregates return fresh bitmaps.",
 		Decided: []string{
+			"the batch iterators ask the inner iterator for more only behind a test that the caller's buffer has room, so that a zero answer can only mean an exhausted chunk",
 			"a merge loop that carries the element under its cursor in a local reloads it whenever the cursor moves (including galloping jumps)",
 			"an iterator glues the key of the current chunk/bucket to what the inner iterator yields only when no reload of the cursor lies between the two reads",
 			"every move of the inner iterator of the eager iterators is followed, before returning, by an exhaustion test that may reload the cursor",
